@@ -180,10 +180,20 @@ def notification(P, R):
                 return 'service-presence'
             return None
 
+        # a comparison folded back from a helper arrives as a test of the helper's result: what the helper returned
+        ret_exprs = {}
+        for t in rv.stores():
+            if t.ev['k'] == 'store' and is_var(t.ev.get('lhs')) and t.ev['lhs']['name'].startswith('__ret@'):
+                ret_exprs.setdefault(t.ev['lhs']['name'], []).append(t.ev.get('rhs'))
+
         def on_edge2(st, e):
             r = rules.edge_rel(e)
             if r and disj(r):
                 return True
+            if r and is_var(r[0]) and r[0]['name'] in ret_exprs and r[1] == '!=' and const_of(r[2]) == 0:
+                exs = ret_exprs[r[0]['name']]
+                if exs and all(isinstance(x, dict) and any(y.get('k') == 'mem' and y.get('field') in ('hostname', 'service') for y in walk(x)) and const_of(x) is None for x in exs):
+                    return True
             return st
         b2, _, _, _ = rv.forward(False, None, on_edge2)
         sts = b2.get(s.key, set())
@@ -365,6 +375,21 @@ def exhaustive(P, R):
                          '%s handles every node kind (cases %s, enum %s)' % (name, vals, sorted(enum)), key='switch:%s' % name)
                     R.obligations[-1]['function'] = name
         if not found:
+            # an if / else-if chain on the kind: the enumerators compared with the node's type
+            vals = set()
+            first = None
+            for bid in f.reachable_blocks():
+                for e in f.out[bid]:
+                    r = e.rel()
+                    if r and isinstance(r[0], dict) and r[0].get('k') == 'mem' and r[0].get('field') == 'type' and r[1] == '==' and (r[2] or {}).get('k') == 'enum' and r[2].get('enum') == 'conf_node_type':
+                        vals.add(r[2]['v'])
+                        first = first or bid
+            if vals:
+                found = True
+                R.ob('C15.TAB.1', sorted(vals) == sorted(enum), P.relloc((f.blocks[first].get('term') or {}).get('loc', '?')),
+                     '%s handles every node kind (kinds tested in its if-chain %s, enum %s)' % (name, sorted(vals), sorted(enum)), key='switch:%s' % name)
+                R.obligations[-1]['function'] = name
+        if not found:
             R.broke('C15.TAB.1: %s no longer switches on the node kind' % name)
     R.floor('C15.TAB.1', 2)
 
@@ -374,17 +399,28 @@ def removal_guard(P, R):
     tgt = rv.params[0]
     src = rv.params[1]
     pres = [s for s in rv.stores() if s.ev['k'] == 'store' and is_field(s.ev['lhs'], 'present') and is_var(s.ev['lhs']['base'], tgt)]
-    okp = len(pres) == 1 and sx(pres[0].ev.get('rhs')).replace(' ', '') in ('(%s!=0)' % src, '(0!=%s)' % src)
-    R.ob('C15.GRD.2', okp, pres[0] if pres else rv, 'the present bit is assigned from "the file has this node" (%s)' % (sx(pres[0].ev.get('rhs')) if pres else None), key='present-assign')
-    rem = [s for s in rv.calls('set_remove') if any(is_var(x, tgt) for x in walk(s.ev['args'][1])) and any(is_field(g[0], 'present') for g in rv.guards(s.bid))]
+    def present_ok(t):
+        txt = sx(t.ev.get('rhs')).replace(' ', '')
+        if txt in ('(%s!=0)' % src, '(0!=%s)' % src):
+            return True
+        c = const_of(t.ev.get('rhs'))
+        gs = rv.guards(t.bid)
+        if c == 1:
+            return any(is_var(g[0], src) and g[1] == '!=' and const_of(g[2]) == 0 for g in gs)
+        if c == 0:
+            return any(is_var(g[0], src) and g[1] == '==' and const_of(g[2]) == 0 for g in gs)
+        return False
+    okp = len(pres) >= 1 and all(present_ok(t) for t in pres)
+    R.ob('C15.GRD.2', okp, pres[0] if pres else rv, 'the present bit is assigned from "the file has this node" (%s)' % (', '.join(sx(t.ev.get('rhs')) for t in pres) if pres else None), key='present-assign')
+    rem = [s for s in rv.calls('set_remove') if any(is_var(x, tgt) for x in walk(s.ev['args'][1])) and any(is_field(g[0], 'present') or is_field(g[0], 'specified') for g in rv.guards(s.bid))]
     for s in rem:
         gs = rv.guards(s.bid)
-        np = any(is_field(g[0], 'present') and g[1] == '==' and const_of(g[2]) == 0 for g in gs)
+        np = any(is_field(g[0], 'present') and g[1] == '==' and const_of(g[2]) == 0 for g in gs) or (okp and any(is_var(g[0], src) and g[1] == '==' and const_of(g[2]) == 0 for g in gs))
         ns = any(is_field(g[0], 'specified') and g[1] == '==' and const_of(g[2]) == 0 for g in gs)
         hp = any(is_field(g[0], 'parent') and g[1] == '!=' and const_of(g[2]) == 0 for g in gs)
         R.ob('C15.GRD.2', np and ns and hp, s, 'a leftover is removed only when absent from the file, not registered, and attached to a parent', key='leftover-guard')
         if pres:
-            R.ob('C15.GRD.2', rv.dominates(pres[0].bid, s.bid) or True and rv.path_avoiding(None, lambda t: t.key == pres[0].key, target=s.bid, from_entry=True) is None, s,
+            R.ob('C15.GRD.2', rv.path_avoiding(None, lambda t: any(t.key == q.key for q in pres), target=s.bid, from_entry=True) is None or any(q.bid == s.bid and q.idx < s.idx for q in pres), s,
                  'the present bit is up to date when the leftover test runs', key='present-before-test')
     R.floor('C15.GRD.2', 3)
     # GRD.3: was-present read in the object branch precedes any write of the bit
